@@ -846,11 +846,17 @@ fn margin(pts: &[Vec<f64>], m: Met, tol: f64) -> f64 {
     if tol.is_infinite() {
         return f64::INFINITY;
     }
+    // the rounding of an index's pruning bound (`distance(q, centre) - radius`, C07's open ulp finding) is
+    // relative to the magnitude of the coordinates, not to the tolerance: the gap between a distance and the
+    // tolerance is measured against the larger of the two (seed 33 of a sweep: coordinates 0.05, tolerance 1.7e-5,
+    // gap 4.7e-10 - the ball tree in f32 dropped the neighbour, which is that finding, not a C08 violation)
+    let cmax = pts.iter().flat_map(|r| r.iter()).fold(0.0f64, |a, x| a.max(x.abs()));
+    let scale = tol.max(cmax * pts.first().map_or(1, |r| r.len().max(1)) as f64);
     let mut best = f64::INFINITY;
     for i in 0..pts.len() {
         for j in 0..=i {
             let d = m.my(&pts[i], &pts[j]);
-            best = best.min((d - tol).abs() / tol);
+            best = best.min((d - tol).abs() / scale);
         }
     }
     best
